@@ -8,6 +8,7 @@ from __future__ import annotations
 
 import datetime
 import itertools
+import sys
 
 import numpy as np
 
@@ -20,6 +21,7 @@ RULE = (
     "update() for every step, conversions at every step in -3..Nsteps+3, times given as ISO string / numpy datetime64 / datetime instance in rotation, "
     "reset() after the last update followed by three more updates; spellings: every spelling of each "
     "duration in the set and every string over the alphabet up to the length bound, decided by a reference grammar. "
+    "conversions also for every dt of 1..240 s and the usual longer ones x steps -64..64 (exact step times and mid-interval times); period verdicts under every ordered pair of calls in a fresh interpreter; "
     "non-trivial clock case = Nsteps>=2 (the clock actually advances) ; non-trivial string = accepted by the reference grammar "
     "or sharing a prefix 'PT' with it; distinct by construction (lattice points)"
 )
@@ -55,6 +57,12 @@ def cases(tier, seed):
         out.append(dict(mode="strings", shard=k, nshards=16, maxlen=b["strlen"]))
     out.append(dict(mode="spellings", maxsec=7300 if tier == "thorough" else 3700))
     out.append(dict(mode="malformed-lists"))
+    # every time step of 1..240 s (and the usual longer ones) x every step of -64..64 x direction: conversions are mutual inverses on step boundaries
+    dts_wide = list(range(1, 241)) + [300, 450, 600, 900, 1200, 1800, 2700, 3600, 7200, 10800, 21600, 43200, 86400]
+    for k in range(8):
+        out.append(dict(mode="convert", dts=dts_wide[k::8], start=starts[k % len(starts)]))
+    # every ordered pair of period spellings (valid, grey, malformed; with colliding str()/hash/==) in one fresh interpreter: the verdict on a spelling must not depend on earlier calls
+    out.append(dict(mode="history"))
     return out
 
 
@@ -314,8 +322,102 @@ def run_malformed(case):
     return util.result(evals=n, nontrivial=n, viol=viols[:6], outcomes=["rejected"], states=n, transitions=n, sample=dict(malformed=[repr(x) for x in MALFORMED[:10]]))
 
 
+def run_convert(case):
+    from ladim.timekeeper import TimeKeeper
+
+    viols, n = [], 0
+    S = secs(case["start"])
+    for dt, rev in itertools.product(case["dts"], [False, True]):
+        sgn = -1 if rev else 1
+        tk = TimeKeeper(start=str(np.datetime64(S, "s")), stop=str(np.datetime64(S + sgn * 70 * dt, "s")), dt=dt, time_reversal=rev)
+        for k in range(-64, 65):
+            n += 1
+            t = S + sgn * k * dt
+            got_t = secs(tk.step2time(k))
+            got_k = [tk.time2step(np.datetime64(t, "s")), tk.time2step(str(np.datetime64(t, "s")))]
+            if (got_t != t or got_k != [k, k]) and len(viols) < 4:
+                viols.append(util.viol("clock:time2step" if got_t == t else "clock:step2time", f"dt={dt} rev={rev} start={case['start']}: step2time({k})={tk.step2time(k)}, time2step of the exact time of step {k} = {got_k}",
+                                       dict(mode="convert", dts=[dt], start=case["start"])))
+            # strictly inside a step interval the step number is the one of the interval's beginning (floor)
+            if dt > 1:
+                inside = t + sgn * (dt // 2)
+                if tk.time2step(np.datetime64(inside, "s")) != k and len(viols) < 4:
+                    viols.append(util.viol("clock:time2step:inside-interval", f"dt={dt} rev={rev}: time2step(step {k} + {dt // 2} s) = {tk.time2step(np.datetime64(inside, 's'))} expected {k}",
+                                           dict(mode="convert", dts=[dt], start=case["start"])))
+    return util.result(evals=n, nontrivial=n, viol=viols, outcomes=["ok"], states=n, transitions=n, sample=dict(dts=len(case["dts"]), steps="-64..64"))
+
+
+_HISTORY_SRC = r"""
+import datetime, json, sys
+import numpy as np
+from ladim.timekeeper import normalize_period
+VALID = [(600, 600), (np.timedelta64(600, "s"), 600), (np.timedelta64(10, "m"), 600), (datetime.timedelta(seconds=600), 600), ([600, "s"], 600), ([10, "m"], 600), ("PT10M", 600), ("PT600S", 600),
+         (1, 1), ([1, "s"], 1), ("PT1S", 1), (60, 60), ([1, "m"], 60), ("PT1M", 60), (3600, 3600), ([1, "h"], 3600), ("PT1H", 3600), (np.timedelta64(1, "h"), 3600), (datetime.timedelta(hours=1), 3600),
+         (86400, 86400), ([24, "h"], 86400), ("PT24H", 86400), (90061, 90061), ("PT25H1M1S", 90061)]
+PROBES = ["600", "[600, 's']", "[10, 'm']", "10 minutes", "0:10:00", "600 seconds", "1", "60", "3600", "[1, 's']", "[1, 'm']", "[1, 'h']", "1 hours", "1:00:00", "0:00:01", "86400", "1 day, 0:00:00",
+          "[24, 'h']", "90061", "PT", "P", "", "PT1H1H", "PT1S1M", [1], [1, "x"], [1, 2], [], None, True, 1.0, 600.0, [True, "s"], [1.0, "s"], (1, "s"), np.float64(600.0), [600], "PT10m", "pt10M", " PT10M"]
+def outcome(x):
+    try:
+        v = normalize_period(x)
+    except BaseException as e:
+        return "rejected"
+    try:
+        return float(v / np.timedelta64(1, "ms"))
+    except BaseException as e:
+        return "odd:" + repr(v)
+bad = []
+n = 0
+fresh = {}
+for i, b in enumerate(PROBES):  # before any valid spelling has been seen by this interpreter
+    fresh[i] = outcome(b)
+for v, sec in VALID:
+    n += 1
+    if outcome(v) != sec * 1000.0:
+        bad.append(["valid", repr(v), outcome(v), sec * 1000.0, "fresh"])
+for a, _ in VALID + [(p, None) for p in PROBES]:
+    outcome(a)
+    for v, sec in VALID:
+        n += 1
+        if outcome(v) != sec * 1000.0:
+            bad.append(["valid", repr(v), outcome(v), sec * 1000.0, repr(a)])
+    for i, b in enumerate(PROBES):
+        n += 1
+        o = outcome(b)
+        if o != fresh[i]:
+            bad.append(["probe", repr(b), o, fresh[i], repr(a)])
+print(json.dumps(dict(n=n, bad=bad[:8], nbad=len(bad))))
+"""
+
+
+def run_history(case):
+    import json
+    import subprocess
+
+    r = subprocess.run([sys.executable, "-c", _HISTORY_SRC], capture_output=True, text=True, timeout=600)
+    if r.returncode != 0:
+        raise util.HarnessError(f"history child failed: {r.stderr[-500:]}")
+    res = json.loads(r.stdout.strip().splitlines()[-1])
+    viols = []
+    for kind, x, got, exp, after in res["bad"]:
+        if kind == "valid":
+            viols.append(util.viol("period:history:valid", f"normalize_period({x}) gives {got} ms after normalize_period({after}), expected {exp} ms", dict(mode="history")))
+        else:
+            viols.append(util.viol("period:history:verdict-depends-on-earlier-calls", f"normalize_period({x}) -> {got} after normalize_period({after}) but {exp} in a fresh interpreter "
+                                   "(whether a spelling is accepted, and with which value, must not depend on the calls made before)", dict(mode="history")))
+    seen, uniq = set(), []
+    for v in viols:
+        if v["sig"] not in seen:
+            seen.add(v["sig"])
+            uniq.append(v)
+    return util.result(evals=res["n"], nontrivial=res["n"], viol=uniq, outcomes=["ok"], states=res["n"], transitions=res["n"], sample=dict(mode="history", pairs=res["n"]))
+
+
 def run_case(case):
     m = case["mode"]
+    if m == "convert":
+        return run_convert(case)
+    if m == "history":
+        return run_history(case)
     if m == "clock":
         return run_clock(case)
     if m == "strings":
